@@ -213,9 +213,19 @@ def shard_history(col, shard_i, nhist):
         texts = gen_texts(rng, 8, kws)
         reused = cls()
         hist = []
-        for step in range(rng.randint(3, 7)):
-            t = rng.choice(texts)
-            kw = dict(rng.choice([{}, {}, {'ignorecase': True}, {'ignorecase': False}]))
+        # every history starts with a directed prefix: a FAILING call under one ignorecase setting, then every case variant of a keyword
+        # and a non-keyword with no setting and with the opposite setting (what the failed call left behind must not show)
+        k0 = kws[0]
+        flip = rng.random() < 0.5
+        directed = [('!!', {'ignorecase': flip})] + [(w, {}) for w in (k0, k0.upper(), k0.lower(), k0.capitalize(), 'zq')] + \
+                   [('!!', {'ignorecase': not flip})] + [(w, kw_) for w in (k0.upper(), k0.lower(), 'zq') for kw_ in ({}, {'ignorecase': flip})]
+        nsteps = len(directed) + rng.randint(3, 7)
+        for step in range(nsteps):
+            if step < len(directed):
+                t, kw = directed[step][0], dict(directed[step][1])
+            else:
+                t = rng.choice(texts)
+                kw = dict(rng.choice([{}, {}, {'ignorecase': True}, {'ignorecase': False}]))
             hist.append((t, kw))
             a = outcome(lambda: reused.parse(t, **kw))
             b = outcome(lambda: cls().parse(t, **kw))
